@@ -520,6 +520,8 @@ func (fc *FCtx) evalAppend(e *ast.CallExpr, st *State) Val {
 		iv := fmt.Sprintf("ai%d", fc.U.fresh)
 		st.assume(fmt.Sprintf("(forall ((%s Int)) (! (=> (and (<= 0 %s) (< %s %s)) (= (select %s %s) (select %s %s))) :pattern ((select %s %s))))", iv, iv, iv, slLen(s), arr, iv, slEl(s), iv, arr, iv))
 		st.assume(fmt.Sprintf("(forall ((%s Int)) (! (=> (and (<= 0 %s) (< %s %s)) (= (select %s (+ %s %s)) (select %s %s))) :pattern ((select %s %s))))", iv, iv, iv, slLen(o), arr, slLen(s), iv, slEl(o), iv, slEl(o), iv))
+		// the same fact indexed from the result side (so that mentioning result[k] instantiates it)
+		st.assume(fmt.Sprintf("(forall ((%s Int)) (! (=> (and (<= %s %s) (< %s (+ %s %s))) (= (select %s %s) (select %s (- %s %s)))) :pattern ((select %s %s))))", iv, slLen(s), iv, iv, slLen(s), slLen(o), arr, iv, slEl(o), iv, slLen(s), arr, iv))
 		nl := app("+", slLen(s), slLen(o))
 		nc := fc.U.Fresh("cap", SInt)
 		st.assume(fmt.Sprintf("(>= %s %s)", nc, nl))
@@ -724,10 +726,18 @@ func (fc *FCtx) callByContract(c *FuncContract, fn *types.Func, sig *types.Signa
 		rt := sig.Results().At(i).Type()
 		s := fc.U.SortOf(rt)
 		v := Val{T: fc.U.Fresh("r_"+fn.Name(), s), S: s, GoT: rt}
-		if c.Flags["pure"] != "" && sig.Results().Len() > 1 && sig.Recv() == nil && len(c.Modifies) == 0 && len(litArgs) == 0 {
-			// multi-result pure function: result i is the symbol absfn("F#i", args) of the spec language
+		if c.Flags["pure"] != "" && (sig.Results().Len() > 1 || sig.Recv() != nil) && len(c.Modifies) == 0 && len(litArgs) == 0 {
+			// multi-result pure function / pure method: result i is the symbol absfn("F#i", [recv,] args) of the spec language
 			var sorts []*Sort
 			var ts []string
+			if sig.Recv() != nil && recvExpr != nil {
+				rname := sig.Recv().Name()
+				if rname == "" || rname == "_" {
+					rname = c.RecvName
+				}
+				sorts = append(sorts, names[rname].S)
+				ts = append(ts, names[rname].T)
+			}
 			for _, p := range pn {
 				sorts = append(sorts, names[p].S)
 				ts = append(ts, names[p].T)
@@ -1019,6 +1029,7 @@ var extAliases = map[string]struct {
 	"LegacyDec.RoundInt":                  {"(cosmossdk.io/math.LegacyDec).RoundInt", "Int"},
 	"Validator.TokensFromSharesTruncated": {"(github.com/cosmos/cosmos-sdk/x/staking/types.Validator).TokensFromSharesTruncated", "Int"},
 	"bytes.Join":                          {"bytes.Join", "Bz"},
+	"bytes.Equal":                         {"bytes.Equal", "Bool"},
 	"FieldVal.Equals":                     {"(*github.com/decred/dcrd/dcrec/secp256k1/v4.FieldVal).Equals", "Bool"},
 	"big.Int.Bytes":                       {"(*math/big.Int).Bytes", "Bz"},
 	"PublicKey.X":                         {"(*github.com/decred/dcrd/dcrec/secp256k1/v4.PublicKey).X", "Int"},
